@@ -186,9 +186,10 @@ func c19Signer(c *Ctx) {
 	for _, b := range merges {
 		sched(1, 1, 2, 2, b)
 	}
-	n := c.N
-	if n > 4000 {
-		n = 4000
+	// a few hundred random schedules are plenty for a consistency check of two hand-written step functions
+	n := c.N / 5
+	if n > 300 {
+		n = 300
 	}
 	for i := 0; i < n; i++ {
 		l := c.Rnd.Intn(10)
